@@ -95,3 +95,13 @@ Proof.
   exists idx, q, rep. exact Hin.
 Qed.
 Print Assumptions C01_history_times.
+
+(* the three HTTP-date forms of RFC 9110 §5.6.7 (its own example) denote one instant; a malformed day does not parse *)
+Example C01_date_forms :
+  parse_http_time (bs "Sun, 06 Nov 1994 08:49:37 GMT") = Some 784111777 /\
+  parse_http_time (bs "Sunday, 06-Nov-94 08:49:37 GMT") = Some 784111777 /\
+  parse_http_time (bs "Sun Nov  6 08:49:37 1994") = Some 784111777 /\
+  parse_http_time (bs "Sunday, 06-Nov-68 08:49:37 GMT") = Some 3119417377 /\
+  parse_http_time (bs "Sun Nov 31 08:49:37 1994") = None /\
+  parse_http_time (bs "0") = None.
+Proof. vm_compute. repeat split; reflexivity. Qed.
